@@ -135,6 +135,7 @@ struct CallCtx {
     int req_count = 0;      // allocation requests seen during this call
     int free_count = 0;
     int fired = 0;          // injected failures that fired
+    unsigned long long steps = 0;   // edges executed by the current library call (step budget)
     FaultPlan fault;
     sigjmp_buf jmp;
     bool jmp_set = false;
@@ -186,6 +187,8 @@ void* heap_malloc(int mgr, size_t size, bool zero, const char* what);
 void heap_free(int mgr, void* p);
 Block* heap_find(const void* p);            // exact start
 Block* heap_find_containing(const void* p); // slow
+bool heap_redzones_intact(const Block& b);
+int heap_check_all_redzones();
 size_t heap_usable(const void* p);          // bytes from p to the end of the live block that contains p (0 if none)
 int heap_live_count(int mgr = -1, int tag = -1, int op = -1);
 std::string heap_live_desc(int mgr = -1, int tag = -1, int op = -1);
